@@ -206,8 +206,9 @@ def only_genes(names):
         pkg_resources.resource_listdir = orig
 
 
-def run_cli_profile(tokens):
-    """`aldy profile "<illumina>" --param t1 t2 ...` through the real main(); returns (yaml text, error)"""
+def run_cli_profile(tokens, cuts=()):
+    """`aldy profile "<illumina>" --param t1 t2 ... [--param t3 ...]` through the real main(); `cuts` are the
+    indices at which a new `--param` flag starts; returns (yaml text, error)"""
     import yaml
     from aldy import __main__ as M
     out = io.StringIO()
@@ -215,7 +216,12 @@ def run_cli_profile(tokens):
     with only_genes(["tpmt"]):
         with contextlib.redirect_stdout(out), contextlib.redirect_stderr(io.StringIO()):
             try:
-                M.main(["profile", "<illumina>", "--genome", "hg19", "--param", *tokens])
+                argv = ["profile", "<illumina>", "--genome", "hg19"]
+                for i, t in enumerate(tokens):
+                    if i == 0 or i in cuts:
+                        argv.append("--param")
+                    argv.append(t)
+                M.main(argv)
             except SystemExit as e:
                 err = f"exit {e.code}"
             except Exception as e:  # AldyException escapes main() for invalid tokens
@@ -264,8 +270,12 @@ def tie(ctx):
             toks.append("novalue")
         cli.append(toks)
     cli_real = []
+    stats_cli_flags = []
     for toks in cli:
-        doc, text, err = run_cli_profile(toks)
+        # the same parameters given with one flag or with several (`--param a=1 --param b=2 c=3`)
+        cuts = tuple(sorted(i for i in range(1, len(toks)) if r.random() < 0.35)) if len(toks) > 1 else ()
+        stats_cli_flags.append(1 + len(cuts))
+        doc, text, err = run_cli_profile(toks, cuts)
         loaded = None
         lerr = None
         if doc is not None:
